@@ -27,6 +27,7 @@ import nfc.llcp
 import nfc.llcp.llc
 from symx.envpatch import CLOCK
 from env.recdevice import T1TagEnv
+from env import recdevice
 from env.recdevice import (RecDevice, Trace, Env, UnsupportedEnv, T2TagEnv,
                            T4ATagEnv,
                            ReaderEnv, PeerEnv, SlotEnv, HarnessLimit,
@@ -318,6 +319,17 @@ def connect_scn(sx, mode="contract", modes=("rdwr",), env="none", startup=None,
             return r
         return g
 
+    def unlocked(m, name, f):
+        # a callback may use the frontend (sense again, close the reader,
+        # talk to the tag): it must not be run with the frontend's
+        # non-reentrant lock held by connect() itself
+        def g(*a):
+            if recdevice.lock_held_by_caller(clf.lock):
+                sx.check(False, "callback-run-with-frontend-lock-held:%s:%s" % (m, name))
+            sx.reach("callback_lock_state_looked_at")
+            return f(*a)
+        return g
+
     for m in modes:
         o = {}
         kind = sx.pick("startup." + m, startup.get(m, ["default"]))
@@ -340,7 +352,7 @@ def connect_scn(sx, mode="contract", modes=("rdwr",), env="none", startup=None,
                                        and name == "on-connect") else None
                 if traffic and m == "llcp" and name == "on-connect":
                     action = traffic_action
-                o[name] = grabbing(make_cb(sx, tr, m, name, vs, later, action))
+                o[name] = unlocked(m, name, grabbing(make_cb(sx, tr, m, name, vs, later, action)))
         if m == "rdwr":
             if targets is not None:
                 o['targets'] = list(targets)
@@ -1646,7 +1658,7 @@ def partitions(tier):
     return parts
 
 
-MUST_REACH = ["connect:false:IOError", "connect:false:KeyboardInterrupt",
+MUST_REACH = ["callback_lock_state_looked_at", "connect:false:IOError", "connect:false:KeyboardInterrupt",
               "connect:false:unsupported", "connect:iterations-counted",
               "connect:none:no-options", "connect:none:terminated",
               "connect:true:default-callbacks"] + \
@@ -1710,7 +1722,7 @@ BOUNDS = {
                           "for rdwr and card", K=4, it=4, rd=3, fb=45,
                           its="absent/-1/0/1/2/3", s3=""),
 }
-_LATER = ("; added later: on-startup results that are lists with foreign members; "
+_LATER = ("; added later: the state of the frontend lock at every callback; on-startup results that are lists with foreign members; "
           "connect(llcp) with a Type 1 / Type 2 / Type 4A tag staying in the field")
 BOUNDS = dict((k, v + _LATER) for k, v in BOUNDS.items())
 OUTSIDE = [
